@@ -40,6 +40,12 @@ CHECKS = {
  "C06": dict(technique="deterministic simulation: chained replacement histories vs reference model (delete+extend), scripted RNG, tapped search, durable restart read by an independent reader",
              text="Histories of 1-3 chained replacements on worlds whose structure carries typed terms inside/outside/across the occurrences and whose patterns carry all four term kinds, coefficient tables, pair coefficients, colliding labels, charges, groups; after each call the result must equal the reference model's extend+delete of the observed selection (each pattern term once per match with the pattern's coefficient text, retained atoms re-typed, bystander terms intact unless superseded forwards/backwards), and the final structure is written to the simulated disk and compared through an independent strict LAMMPS reader.",
              note="Known finding (printed as KNOWN-FINDING, see known_findings.json): the documented CIF workflow (structure without pair table + parameterised pattern) misaligns the pair table. Inserted positions are C05's subject.", ref="5/C06"),
+ "C13": dict(technique="deterministic simulation: writer -> simulated disk (short/torn/failed writes, crash) -> independent strict reader + real reader, repeated restarts",
+             text="Generated structures (both atom styles, orthorhombic / LAMMPS-oriented tilted cells incl. unreduced tilts / no cell, unused types, multi-word coefficient comments, negative charges and coordinates) are written through every branch of Atoms.save/save_lmpdat onto a simulated disk, inspected by an independent strict reader of the documented format (header counts vs sections, box/tilt, 1-based ids, masses, labels, coefficient tokens), re-read through path / simulated file objects with scripted line delivery, compared with the reference model to printed precision, and re-written twice (T2 == T3 byte-for-byte). Fault configurations: ENOSPC/EIO after k characters, lost and torn writes, with the oracle 'raised, object unchanged, clean retry right'.",
+             note="Decided against the harness' strict reader of the documented read_data format, not against LAMMPS itself. Elements not compared (C14).", ref="5/C13"),
+ "C16": dict(technique="deterministic simulation: documents served through simulated text streams with scripted read(n) chunking, real files and real paths",
+             text="Generated CML documents in the repository's Avogadro flavour (any id scheme incl. shuffled and arbitrary strings, bond list present/empty/absent, coordinates of any sign/magnitude, attribute order varied) are loaded through simulated streams that return 1..n characters per read(n), through a real open file and through str/pathlib paths, via Atoms.load and load_cml; atoms (order, element, exact coordinates) and bonds (multiset of pairs) must equal the document in every delivery mode.",
+             note="xml.etree is real code fed by the stub stream. Bond listing order/orientation not judged.", ref="5/C16"),
 }
 
 NOT_APPLICABLE = [
